@@ -21,6 +21,8 @@ import RoModel.Drivers.More
 import RoModel.Drivers.Fault
 import RoModel.Drivers.Prom
 import RoModel.Drivers.Cut
+import RoModel.Drivers.MultiB
+import RoModel.Drivers.MultiBC
 namespace Ro.Driver
 
 def handlers : List (String × (Case → String)) := [
@@ -49,7 +51,9 @@ def handlers : List (String × (Case → String)) := [
   ("prom", Drivers.Prom.run),
   ("cutin", Drivers.Cut.runCutIn),
   ("collect", Drivers.Cut.runCollect),
-  ("teardown", Drivers.Cut.runTeardown)
+  ("teardown", Drivers.Cut.runTeardown),
+  ("multib", Drivers.MultiB.run),
+  ("multibc", Drivers.MultiBC.run)
 ]
 
 def runCase (c : Case) : String :=
